@@ -110,9 +110,6 @@ theorem Good.grow {S S' : Nat → Prop} {buf : Bytes} {k off r} (hS : ∀ i, S i
 
 /-! ## Generic stability lemmas (used by the record-level proofs) -/
 
-def BytesAt (buf : Bytes) (off : Nat) (x : Bytes) : Prop :=
-  ∀ i, i < x.length → buf[off + i]? = x[i]?
-
 /-- appending octets and freezing them -/
 theorem EInv.put {S : Nat → Prop} {e : Enc} (x : Bytes) (h : EInv S e) :
     EInv (ext S e.out.length (e.out.length + x.length)) (e.put x) := by
